@@ -109,6 +109,12 @@ def directed():
                 "steps": [{"op": "fetch", "n": 2}, {"op": "append", "batch": B(5, 6, [5, 6])}] + drain})
     out.append({"id": "D-empty-first", "log": [B(0, 2, [])] + [B(3, 4, [3, 4])], "logStart": 0, "start": -2, "qcap": 1, "fetchVersion": 10,
                 "maxBytes": 1 << 20, "steps": drain})
+    # finding F9: consecutive retained empty batches (at the start, in the middle, at the end of a response)
+    for k, log in enumerate(([B(0, 1, []), B(2, 3, []), B(4, 5, [4, 5])], [B(0, 1, [0, 1]), B(2, 2, []), B(3, 5, []), B(6, 6, [6])],
+                             [B(0, 0, [0]), B(1, 2, []), B(3, 4, []), B(5, 6, [])])):
+        for fv in (5, 10):
+            out.append({"id": "D-empty-twice-%d-v%d" % (k, fv), "log": log, "logStart": 0, "start": -2, "qcap": 1, "fetchVersion": fv,
+                        "maxBytes": 1 << 20, "steps": [{"op": "fetch", "n": 3}, {"op": "append", "batch": B(7, 8, [7, 8])}] + drain})
     # one batch per response (truncation at every batch boundary), mid-record truncation, cuts
     for k in range(0, 3):
         for r in range(0, 3):
